@@ -25,7 +25,7 @@ BudSim   == [way |-> 4, way2 |-> 2, rand |-> 3, hs |-> 4, badhs |-> 2, msg |-> 8
 
 Reset == [k |-> "Reset", retries |-> RETRIES, cap |-> CAP, sess_ttl |-> TTL]
 Init == /\ h = HInit(RETRIES, CAP, TTL) /\ env = EInit /\ bud = BUD
-        /\ hist = <<Reset>> /\ last = [in |-> Reset, rin |-> [k |-> "Nop"], hadSess |-> FALSE, hadPend |-> FALSE, pendRids |-> {}, expPend |-> FALSE, wayHs |-> FALSE]
+        /\ hist = <<Reset>> /\ last = [in |-> Reset, rin |-> [k |-> "Nop"], hadSess |-> FALSE, hadPend |-> FALSE, pendRids |-> {}, expPend |-> FALSE, lateInt |-> FALSE, wayHs |-> FALSE]
         /\ subm = {} /\ outc = [r \in RIDS |-> 0] /\ proved = {} /\ xreq = {} /\ rot = {}
 
 Parties == PEERS \cup (IF ATTACKER THEN {"A"} ELSE {})
@@ -37,6 +37,7 @@ AppReqs == {[k |-> "AppRequest", peer |-> p, addr |-> HomeSock(p), rid |-> r, en
 AppResps == {[k |-> "AppResponse", peer |-> x.id, addr |-> x.addr, xid |-> x.rid, body |-> "pong"] : x \in xreq}
 AppWrus == UNION {{[k |-> "AppWhoAreYou", ref |-> env.wru[i].ref, rec |-> r] : r \in {"none", Name(env.wru[i].a.id \o ":", 1)}} : i \in 1..Len(env.wru)}
 Randoms == {[k |-> "PeerRandom", party |-> p, from |-> HomeSock(p), claim |-> p] : p \in PEERS}
+           \cup (IF DEPTH > 0 THEN {[k |-> "PeerRandom", party |-> p, from |-> HomeSock(p) \o "b", claim |-> p] : p \in PEERS} ELSE {})   \* from the other port (simulation)
            \cup (IF ATTACKER THEN {[k |-> "PeerRandom", party |-> "A", from |-> "aA", claim |-> c] : c \in PEERS} ELSE {})
 \* WHOAREYOU from a party for a datagram the node sent to one of the sockets that party can see
 \* (also from the other port of the same IP address: a1 <-> a1b, ...: such a WHOAREYOU does not come from where the datagram went)
@@ -53,7 +54,8 @@ Handshakes == UNION {UNION {{[k |-> "PeerHandshake", party |-> p, from |-> env.f
                                         \cup (IF "own9" \in HSRECS THEN {Name(p \o ":", 9)} ELSE {}) \cup (IF "claimed1" \in HSRECS THEN {Name(env.froml[i].id \o ":", 1)} ELSE {})}
                              : i \in 1..Len(env.froml)} : p \in Parties}
 HandshakesOk == {x \in Handshakes : (x.party = x.claim /\ x.from \in Socks(x.party)) \/ x.party = "A"}
-IntRids == {h.active[j].rid : j \in {j \in 1..Len(h.active) : h.active[j].int}}
+\* the node's own record requests: those in flight; with "intlate" every one issued so far (a late answer after its time-out)
+IntRids == IF "intlate" \in MSGSEL THEN {Name("q", i) : i \in 1..h.nq} ELSE {h.active[j].rid : j \in {j \in 1..Len(h.active) : h.active[j].int}}
 Messages == UNION {{[k |-> "PeerMessage", party |-> env.sess[i].party, from |-> HomeSock(env.sess[i].party), key |-> env.sess[i].kid, msg |-> m] :
               m \in (IF "req" \in MSGSEL THEN {[t |-> "req", xid |-> "x1", body |-> "ping"]} ELSE {})
                     \cup (IF "junk" \in MSGSEL THEN {[t |-> "junk"]} ELSE {})
@@ -104,6 +106,9 @@ Do(kind, in) ==
         /\ last' = [in |-> in, rin |-> rin, hadSess |-> rin.k = "hs" /\ HasSess(h, Addr(rin.src, rin.from)), hadPend |-> rin.k = "hs" /\ \E i \in 1..Len(h.pend) : h.pend[i].addr = Addr(rin.src, rin.from) /\ ~h.pend[i].int,
                         pendRids |-> {h.pend[i].rid : i \in 1..Len(h.pend)},
                         expPend |-> rin.k = "Advance" /\ \E i \in 1..Len(h.pend) : ~h.pend[i].int /\ HasSess(h, h.pend[i].addr) /\ HasChal(h, h.pend[i].addr),
+                        lateInt |-> rin.k = "msg" /\ rin.msg.t = "resp" /\ SessIdx(h, Addr(rin.src, rin.from)) # 0 /\ Sess(h, Addr(rin.src, rin.from)).aw = rin.msg.rid
+                                    /\ (\A i \in 1..Len(h.active) : h.active[i].rid # rin.msg.rid)
+                                    /\ (\E i \in 1..Len(h.active) : h.active[i].addr = Addr(rin.src, rin.from) /\ ~h.active[i].int),
                         wayHs |-> rin.k = "way" /\ \E i \in 1..Len(h.active) : h.active[i].n = rin.echo /\ h.active[i].hs /\ h.active[i].kind = "msg" /\ h.active[i].addr.sock = rin.from]
         /\ hist' = Append(hist, in)
         /\ subm' = IF in.k = "AppRequest" THEN subm \cup {in.rid} ELSE subm
@@ -201,6 +206,9 @@ GoalPendingAfterExpiredChallenge == ~(last.expPend /\ h.pend = <<>> /\ h.chal = 
 \* the node's own record request to a contact without record is answered with the genuine record of another node
 GoalForeignEnrAnswer == ~(last.in.k = "PeerMessage" /\ last.rin.k = "msg" /\ last.in.msg.t = "resp" /\ "rec" \in DOMAIN last.in.msg /\ last.in.msg.rec \notin {"none", Name(last.in.party \o ":", 1)}
                           /\ \E i \in 1..Len(h.ev) : h.ev[i].e = "Unverifiable")
+\* the answer to the node's own record request arrives after that request has timed out (the session is kept), while another
+\* request to the peer is in flight: the peer is reported established, the other request keeps its exemption
+GoalLateEnrAnswer == ~(last.lateInt /\ \E i \in 1..Len(h.ev) : h.ev[i].e = "Established")
 GoalBadSigKeepsChallenge == ~(last.rin.k = "hs" /\ last.rin.signer = "bad" /\ HasChal(h, Addr(last.rin.src, last.rin.from)))
 GoalReplayedHs  == ~(last.in.k = "Replay" /\ last.rin.k = "hs" /\ Len(h.sessq) >= 1)
 =============================================================================
